@@ -10,6 +10,7 @@ mod csrparsedrv;
 mod der;
 mod desc;
 mod faultdrv;
+mod featdrv;
 mod dndrv;
 mod importdrv;
 mod keydrv;
@@ -19,6 +20,7 @@ mod pathdrv;
 mod pemx;
 mod strdrv;
 mod project;
+mod puritydrv;
 mod util;
 mod validate;
 mod verify;
@@ -51,6 +53,11 @@ fn main() {
 		"csr-parse" => csrparsedrv::run(&args[2], &args[3]),
 		"path-cases" => pathdrv::run_cases(&args[2], &args[3]),
 		"cli-cases" => clidrv::run_cases(&args[2], &args[3], &args[4], &args[5]),
+		"purity" => puritydrv::parent(&args[2], &args[3], &args[4], &args[5], &args[6..]),
+		"purity-child" => puritydrv::child(&args[2], &args[3], &args[4], args[5].parse().unwrap(), args[6].parse().unwrap()),
+		"features" => featdrv::run_features(&args[2], &args[3], &args[4]),
+		"key-export" => featdrv::key_export(&args[2]),
+		"key-xfer" => featdrv::key_xfer(&args[2], &args[3], &args[4]),
 		"dn-cases" => dndrv::run_cases(&args[2], &args[3]),
 		"dn-random" => dndrv::run_random(&args[2], args[3].parse().unwrap(), args[4].parse().unwrap()),
 		other => {
